@@ -277,6 +277,7 @@ inductive Event where
   | stop (name : Str)
   | comment (s : Str)
   | pi (target data : Str)
+  | doctype (body : Str)                -- the text between `<!` and `>` of the document type declaration
   deriving Repr, DecidableEq
 
 inductive Mode where
@@ -301,6 +302,7 @@ inductive Mode where
   | piWS (target : Str)
   | piData (target : Str) (acc : Str) (q : Bool)
   | piClose (target : Str)
+  | doctype (acc : Str) (q : Option Char)
   deriving Repr, DecidableEq
 
 structure PState where
@@ -353,142 +355,6 @@ def lower (c : Char) : Char := if 65 ≤ c.toNat && c.toNat ≤ 90 then Char.ofN
 
 /-- [17] PITarget: a Name other than (('X'|'x')('M'|'m')('L'|'l')) -/
 def validTarget (t : Str) : Bool := validName t && t.map lower ≠ ['x', 'm', 'l']
-
-/-- `>` of a start tag [40] -/
-def openTag (s : PState) (name : Str) (attrs : List (Str × Str)) : PState :=
-  { mode := .content, stack := name :: s.stack, rootDone := s.rootDone, evs := .start name attrs :: s.evs }
-
-/-- `/>` of an empty-element tag [44] -/
-def emptyTag (s : PState) (name : Str) (attrs : List (Str × Str)) : PState :=
-  { mode := .content, stack := s.stack, rootDone := s.rootDone || s.stack.isEmpty,
-    evs := .stop name :: .start name attrs :: s.evs }
-
-/-- end tag [42]; WFC: Element Type Match -/
-def closeTag (s : PState) (name : Str) : Option PState :=
-  match s.stack with
-  | [] => none
-  | top :: rest =>
-    if top = name then some { mode := .content, stack := rest, rootDone := s.rootDone || rest.isEmpty, evs := .stop name :: s.evs }
-    else none
-
-def step (s : PState) (c : Char) : Option PState :=
-  match s.mode with
-  | .content =>
-    if c = '<' then some { s with mode := .lt }
-    else if s.stack.isEmpty then (if isS c then some s else none)        -- [27] Misc outside the document element
-    else if c = '&' then some { s with mode := .ref [] }
-    else if c = '>' || c = '\r' then none                                -- (sound subset, see above)
-    else if xmlChar c then some { s with evs := .chr c :: s.evs }        -- [14] CharData
-    else none
-  | .lt =>
-    if c = '/' then (if s.stack.isEmpty then none else some { s with mode := .etag [] })
-    else if c = '!' then some { s with mode := .bang }
-    else if c = '?' then some { s with mode := .piTarget [] }
-    else if nameStart c then
-      (if s.stack.isEmpty && s.rootDone then none                        -- [1] exactly one document element
-       else some { s with mode := .stag [c] })
-    else none
-  | .stag acc =>
-    if nameChar c then some { s with mode := .stag (c :: acc) }
-    else if isS c then some { s with mode := .tagWS acc.reverse [] }
-    else if c = '>' then some (openTag s acc.reverse [])
-    else if c = '/' then some { s with mode := .emptyClose acc.reverse [] }
-    else none
-  | .tagWS n as =>
-    if isS c then some s
-    else if nameStart c then some { s with mode := .attrName n as [c] }
-    else if c = '>' then some (openTag s n as)
-    else if c = '/' then some { s with mode := .emptyClose n as }
-    else none
-  | .attrName n as acc =>
-    if nameChar c then some { s with mode := .attrName n as (c :: acc) }
-    else if as.any (fun kv => kv.1 = acc.reverse) then none              -- WFC: Unique Att Spec
-    else if c = '=' then some { s with mode := .attrEq n as acc.reverse }
-    else if isS c then some { s with mode := .attrNameWS n as acc.reverse }
-    else none
-  | .attrNameWS n as an =>
-    if isS c then some s
-    else if c = '=' then some { s with mode := .attrEq n as an }
-    else none
-  | .attrEq n as an =>
-    if isS c then some s
-    else if c = '"' || c = '\'' then some { s with mode := .attrVal n as an c [] }
-    else none
-  | .attrVal n as an q acc =>
-    if c = q then some { s with mode := .afterAttr n (as ++ [(an, acc.reverse)]) }
-    else if c = '<' || c = '\r' then none                                -- WFC: No < in Attribute Values
-    else if c = '&' then some { s with mode := .attrRef n as an q acc [] }
-    else if c = '\t' || c = '\n' then some { s with mode := .attrVal n as an q (' ' :: acc) }   -- 3.3.3 normalisation
-    else if xmlChar c then some { s with mode := .attrVal n as an q (c :: acc) }
-    else none
-  | .attrRef n as an q acc r =>
-    if c = ';' then
-      match decodeRef r.reverse with
-      | some d => some { s with mode := .attrVal n as an q (d :: acc) }  -- a referenced character is not normalised
-      | none => none
-    else if refChar c then some { s with mode := .attrRef n as an q acc (c :: r) }
-    else none
-  | .afterAttr n as =>
-    if isS c then some { s with mode := .tagWS n as }
-    else if c = '>' then some (openTag s n as)
-    else if c = '/' then some { s with mode := .emptyClose n as }
-    else none
-  | .emptyClose n as => if c = '>' then some (emptyTag s n as) else none
-  | .etag acc =>
-    if nameChar c then some { s with mode := .etag (c :: acc) }
-    else if isS c then some { s with mode := .etagWS acc.reverse }
-    else if c = '>' then closeTag s acc.reverse
-    else none
-  | .etagWS n =>
-    if isS c then some s
-    else if c = '>' then closeTag s n
-    else none
-  | .ref r =>
-    if c = ';' then
-      match decodeRef r.reverse with
-      | some d => some { s with mode := .content, evs := .chr d :: s.evs }
-      | none => none
-    else if refChar c then some { s with mode := .ref (c :: r) }
-    else none
-  | .bang => if c = '-' then some { s with mode := .bang1 } else none
-  | .bang1 => if c = '-' then some { s with mode := .comment [] 0 } else none
-  | .comment acc d =>                                                    -- [15] Comment
-    match d with
-    | 0 => if c = '-' then some { s with mode := .comment acc 1 }
-           else if xmlChar c then some { s with mode := .comment (c :: acc) 0 } else none
-    | 1 => if c = '-' then some { s with mode := .comment acc 2 }
-           else if xmlChar c then some { s with mode := .comment (c :: '-' :: acc) 0 } else none
-    | _ => if c = '>' then some { s with mode := .content, evs := .comment acc.reverse :: s.evs } else none
-  | .piTarget acc =>                                                     -- [16] PI
-    if nameChar c then some { s with mode := .piTarget (c :: acc) }
-    else if !validTarget acc.reverse then none
-    else if isS c then some { s with mode := .piWS acc.reverse }
-    else if c = '?' then some { s with mode := .piClose acc.reverse }     -- `<?target?>`
-    else none
-  | .piClose t => if c = '>' then some { s with mode := .content, evs := .pi t [] :: s.evs } else none
-  | .piWS t =>
-    if isS c then some s
-    else if c = '?' then some { s with mode := .piData t [] true }
-    else if xmlChar c then some { s with mode := .piData t [c] false }
-    else none
-  | .piData t acc q =>
-    if q then
-      (if c = '>' then some { s with mode := .content, evs := .pi t acc.reverse :: s.evs }
-       else if c = '?' then some { s with mode := .piData t ('?' :: acc) true }
-       else if xmlChar c then some { s with mode := .piData t (c :: '?' :: acc) false }
-       else none)
-    else
-      (if c = '?' then some { s with mode := .piData t acc true }
-       else if xmlChar c then some { s with mode := .piData t (c :: acc) false }
-       else none)
-
-def runM (s : PState) : Str → Option PState
-  | [] => some s
-  | c :: r => match step s c with
-    | some s' => runM s' r
-    | none => none
-
-def accepting (s : PState) : Bool := s.mode = .content && s.stack.isEmpty && s.rootDone
 
 /-! ### Prolog: XMLDecl [23] and doctypedecl [28] (external identifiers only) -/
 
@@ -600,60 +466,206 @@ def stripDecl (doc : Str) : Option Str :=
 def pubidChar (c : Char) : Bool :=
   c = ' ' || c = '\r' || c = '\n' || isAlpha c || isDigit c || "-'()+,./:=?;!*#@$_%".toList.contains c
 
-/-- `S? doctypedecl?` directly after the declaration: `<!DOCTYPE S Name (S ExternalID)? S? >` -/
-def stripDoctype (doc : Str) : Option Str :=
-  match dropLit "<!DOCTYPE".toList (skipS doc) with
-  | none => some doc
+/-- the text between `<!` and `>` of a document type declaration [28], external identifiers only:
+`DOCTYPE S Name (S ExternalID)? S?` -/
+def doctypeBodyOk (body : Str) : Bool :=
+  match dropLit "DOCTYPE".toList body with
+  | none => false
   | some r =>
     match r with
-    | [] => none
+    | [] => false
     | c :: _ =>
-      if !isS c then none else
+      if !isS c then false else
       let r1 := skipS r
       let name := r1.takeWhile nameChar
       let r2 := r1.dropWhile nameChar
-      if !validName name then none else
+      if !validName name then false else
       match r2 with
-      | '>' :: rest => some rest
+      | [] => true
       | c2 :: _ =>
-        if !isS c2 then none else
+        if !isS c2 then false else
         let r3 := skipS r2
-        match r3 with
-        | '>' :: rest => some rest
-        | _ =>
-          let sysPart (r : Str) : Option Str :=
-            match quoted (fun _ => true) r with
-            | some (_, r') => match skipS r' with
-              | '>' :: rest => some rest
-              | _ => none
-            | none => none
-          match dropLit "SYSTEM".toList r3 with
+        if r3.isEmpty then true else
+        let sysPart (r : Str) : Bool :=
+          match quoted (fun _ => true) r with
+          | some (_, r') => (skipS r').isEmpty
+          | none => false
+        match dropLit "SYSTEM".toList r3 with
+        | some r4 => (match r4 with
+          | c4 :: _ => isS c4 && sysPart (skipS r4)
+          | [] => false)
+        | none =>
+          match dropLit "PUBLIC".toList r3 with
           | some r4 => (match r4 with
-            | c4 :: _ => if isS c4 then sysPart (skipS r4) else none
-            | [] => none)
-          | none =>
-            match dropLit "PUBLIC".toList r3 with
-            | some r4 => (match r4 with
-              | c4 :: _ =>
-                if !isS c4 then none else
-                match quoted pubidChar (skipS r4) with
-                | some (_, r5) => (match r5 with
-                  | c5 :: _ => if isS c5 then sysPart (skipS r5) else none
-                  | [] => none)
-                | none => none
-              | [] => none)
-            | none => none
-      | [] => none
+            | c4 :: _ =>
+              if !isS c4 then false else
+              match quoted pubidChar (skipS r4) with
+              | some (_, r5) => (match r5 with
+                | c5 :: _ => isS c5 && sysPart (skipS r5)
+                | [] => false)
+              | none => false
+            | [] => false)
+          | none => false
+
+/-- `>` of a start tag [40] -/
+def openTag (s : PState) (name : Str) (attrs : List (Str × Str)) : PState :=
+  { mode := .content, stack := name :: s.stack, rootDone := s.rootDone, evs := .start name attrs :: s.evs }
+
+/-- `/>` of an empty-element tag [44] -/
+def emptyTag (s : PState) (name : Str) (attrs : List (Str × Str)) : PState :=
+  { mode := .content, stack := s.stack, rootDone := s.rootDone || s.stack.isEmpty,
+    evs := .stop name :: .start name attrs :: s.evs }
+
+/-- end tag [42]; WFC: Element Type Match -/
+def closeTag (s : PState) (name : Str) : Option PState :=
+  match s.stack with
+  | [] => none
+  | top :: rest =>
+    if top = name then some { mode := .content, stack := rest, rootDone := s.rootDone || rest.isEmpty, evs := .stop name :: s.evs }
+    else none
+
+def step (s : PState) (c : Char) : Option PState :=
+  match s.mode with
+  | .content =>
+    if c = '<' then some { s with mode := .lt }
+    else if s.stack.isEmpty then (if isS c then some s else none)        -- [27] Misc outside the document element
+    else if c = '&' then some { s with mode := .ref [] }
+    else if c = '>' || c = '\r' then none                                -- (sound subset, see above)
+    else if xmlChar c then some { s with evs := .chr c :: s.evs }        -- [14] CharData
+    else none
+  | .lt =>
+    if c = '/' then (if s.stack.isEmpty then none else some { s with mode := .etag [] })
+    else if c = '!' then some { s with mode := .bang }
+    else if c = '?' then some { s with mode := .piTarget [] }
+    else if nameStart c then
+      (if s.stack.isEmpty && s.rootDone then none                        -- [1] exactly one document element
+       else some { s with mode := .stag [c] })
+    else none
+  | .stag acc =>
+    if nameChar c then some { s with mode := .stag (c :: acc) }
+    else if isS c then some { s with mode := .tagWS acc.reverse [] }
+    else if c = '>' then some (openTag s acc.reverse [])
+    else if c = '/' then some { s with mode := .emptyClose acc.reverse [] }
+    else none
+  | .tagWS n as =>
+    if isS c then some s
+    else if nameStart c then some { s with mode := .attrName n as [c] }
+    else if c = '>' then some (openTag s n as)
+    else if c = '/' then some { s with mode := .emptyClose n as }
+    else none
+  | .attrName n as acc =>
+    if nameChar c then some { s with mode := .attrName n as (c :: acc) }
+    else if as.any (fun kv => kv.1 = acc.reverse) then none              -- WFC: Unique Att Spec
+    else if c = '=' then some { s with mode := .attrEq n as acc.reverse }
+    else if isS c then some { s with mode := .attrNameWS n as acc.reverse }
+    else none
+  | .attrNameWS n as an =>
+    if isS c then some s
+    else if c = '=' then some { s with mode := .attrEq n as an }
+    else none
+  | .attrEq n as an =>
+    if isS c then some s
+    else if c = '"' || c = '\'' then some { s with mode := .attrVal n as an c [] }
+    else none
+  | .attrVal n as an q acc =>
+    if c = q then some { s with mode := .afterAttr n (as ++ [(an, acc.reverse)]) }
+    else if c = '<' || c = '\r' then none                                -- WFC: No < in Attribute Values
+    else if c = '&' then some { s with mode := .attrRef n as an q acc [] }
+    else if c = '\t' || c = '\n' then some { s with mode := .attrVal n as an q (' ' :: acc) }   -- 3.3.3 normalisation
+    else if xmlChar c then some { s with mode := .attrVal n as an q (c :: acc) }
+    else none
+  | .attrRef n as an q acc r =>
+    if c = ';' then
+      match decodeRef r.reverse with
+      | some d => some { s with mode := .attrVal n as an q (d :: acc) }  -- a referenced character is not normalised
+      | none => none
+    else if refChar c then some { s with mode := .attrRef n as an q acc (c :: r) }
+    else none
+  | .afterAttr n as =>
+    if isS c then some { s with mode := .tagWS n as }
+    else if c = '>' then some (openTag s n as)
+    else if c = '/' then some { s with mode := .emptyClose n as }
+    else none
+  | .emptyClose n as => if c = '>' then some (emptyTag s n as) else none
+  | .etag acc =>
+    if nameChar c then some { s with mode := .etag (c :: acc) }
+    else if isS c then some { s with mode := .etagWS acc.reverse }
+    else if c = '>' then closeTag s acc.reverse
+    else none
+  | .etagWS n =>
+    if isS c then some s
+    else if c = '>' then closeTag s n
+    else none
+  | .ref r =>
+    if c = ';' then
+      match decodeRef r.reverse with
+      | some d => some { s with mode := .content, evs := .chr d :: s.evs }
+      | none => none
+    else if refChar c then some { s with mode := .ref (c :: r) }
+    else none
+  | .bang =>
+    if c = '-' then some { s with mode := .bang1 }
+    else if c = 'D' then
+      -- [22] prolog: at most one doctypedecl, before the document element (and, here, before any comment or PI)
+      (if s.stack.isEmpty && !s.rootDone && s.evs.isEmpty then some { s with mode := .doctype ['D'] none } else none)
+    else none
+  | .doctype acc q =>
+    match q with
+    | some qc =>
+      if c = qc then some { s with mode := .doctype (c :: acc) none }
+      else if xmlChar c then some { s with mode := .doctype (c :: acc) (some qc) } else none
+    | none =>
+      if c = '>' then
+        (if doctypeBodyOk acc.reverse then some { s with mode := .content, evs := .doctype acc.reverse :: s.evs } else none)
+      else if c = '<' || c = '[' then none                              -- no internal subset (sound subset)
+      else if c = '"' || c = '\'' then some { s with mode := .doctype (c :: acc) (some c) }
+      else if xmlChar c then some { s with mode := .doctype (c :: acc) none } else none
+  | .bang1 => if c = '-' then some { s with mode := .comment [] 0 } else none
+  | .comment acc d =>                                                    -- [15] Comment
+    match d with
+    | 0 => if c = '-' then some { s with mode := .comment acc 1 }
+           else if xmlChar c then some { s with mode := .comment (c :: acc) 0 } else none
+    | 1 => if c = '-' then some { s with mode := .comment acc 2 }
+           else if xmlChar c then some { s with mode := .comment (c :: '-' :: acc) 0 } else none
+    | _ => if c = '>' then some { s with mode := .content, evs := .comment acc.reverse :: s.evs } else none
+  | .piTarget acc =>                                                     -- [16] PI
+    if nameChar c then some { s with mode := .piTarget (c :: acc) }
+    else if !validTarget acc.reverse then none
+    else if isS c then some { s with mode := .piWS acc.reverse }
+    else if c = '?' then some { s with mode := .piClose acc.reverse }     -- `<?target?>`
+    else none
+  | .piClose t => if c = '>' then some { s with mode := .content, evs := .pi t [] :: s.evs } else none
+  | .piWS t =>
+    if isS c then some s
+    else if c = '?' then some { s with mode := .piData t [] true }
+    else if xmlChar c then some { s with mode := .piData t [c] false }
+    else none
+  | .piData t acc q =>
+    if q then
+      (if c = '>' then some { s with mode := .content, evs := .pi t acc.reverse :: s.evs }
+       else if c = '?' then some { s with mode := .piData t ('?' :: acc) true }
+       else if xmlChar c then some { s with mode := .piData t (c :: '?' :: acc) false }
+       else none)
+    else
+      (if c = '?' then some { s with mode := .piData t acc true }
+       else if xmlChar c then some { s with mode := .piData t (c :: acc) false }
+       else none)
+
+def runM (s : PState) : Str → Option PState
+  | [] => some s
+  | c :: r => match step s c with
+    | some s' => runM s' r
+    | none => none
+
+def accepting (s : PState) : Bool := s.mode = .content && s.stack.isEmpty && s.rootDone
 
 /-- the decoder: events in document order, or `none` when the text is not well-formed (in the fragment) -/
 def parse (doc : Str) : Option (List Event) :=
   match stripDecl doc with
   | none => none
-  | some d1 => match stripDoctype d1 with
+  | some body => match runM {} body with
     | none => none
-    | some body => match runM {} body with
-      | none => none
-      | some s => if accepting s then some s.evs.reverse else none
+    | some s => if accepting s then some s.evs.reverse else none
 
 def wellFormed (doc : Str) : Bool := (parse doc).isSome
 
@@ -736,10 +748,10 @@ def rleOps (hex : Bool) (elem : Str) (items : List RItem) : List Op :=
 /-- reader side (specification): integer literal, decimal or `0x` hexadecimal, with the sign where the writer puts it -/
 def readInt (s : Str) : Option Int :=
   match s with
-  | '0' :: 'x' :: '-' :: h => (parseHex h).map (fun n => -(n : Int))
-  | '0' :: 'x' :: h => (parseHex h).map (fun n => (n : Int))
-  | '-' :: d => (parseDec d).map (fun n => -(n : Int))
-  | d => (parseDec d).map (fun n => (n : Int))
+  | '0' :: 'x' :: '-' :: h => (parseHex h).map (fun (n : Nat) => -(n : Int))
+  | '0' :: 'x' :: h => (parseHex h).map (fun (n : Nat) => (n : Int))
+  | '-' :: d => (parseDec d).map (fun (n : Nat) => -(n : Int))
+  | d => (parseDec d).map (fun (n : Nat) => (n : Int))
 
 /-- closed-form expansion of one `<RLE datum stride repeat/>` (specification) -/
 def expandItem (attrs : List (Str × Str)) : Option (List Int) :=
